@@ -201,11 +201,11 @@ def init_one(dt):
     return K.run_paths(f"C14/init_lanczos[{dt}]", FN + "init_lanczos", thunk, dict(engine="LANCZOS", part="init", dtype=dt))
 
 
-def wrapper_one(dt, capcase):
+def wrapper_one(dt, capcase, prop="C14"):
     """lanczos(): cap, trimming, T and Q from the final loop state; lanczos_fact is a contract stub (final state: arbitrary buffers, 2 <= i <= m + 1)"""
     from vcgen.rules import sym_dim
     L = importlib.import_module("cola.linalg.decompositions.lanczos")
-    dtype = np.float64 if dt == "real" else np.complex128
+    dtype = np.float64 if dt in ("real", "vcomplex") else np.complex128
     rec = {}
 
     def thunk():
@@ -215,11 +215,13 @@ def wrapper_one(dt, capcase):
         CTX.assume(mi.term < n.term if capcase == "cap<n" else mi.term >= n.term)
         mcap = mi if capcase == "cap<n" else n
         A, a = idx.make_abstract_op("A", n, n, dtype)
-        v = IArr.const("v", (n,), np.float64)          # a real start vector for a (possibly complex) operator
+        vdtype = np.complex128 if dt == "vcomplex" else np.float64
+        v = IArr.const("v", (n,), vdtype)          # a real start vector for a (possibly complex) operator; dt == "vcomplex": a complex one for a real operator
+        wdtype = np.promote_types(dtype, vdtype)    # the basis lives in the promoted dtype of operator and start vector
         tol = SScal(z3.Real(CTX.fresh("tol")))
-        Vf = state_array("Vfin", (1, n, mcap + 2), dtype)
-        Df = state_array("alphafin", (1, mcap), dtype)
-        Sf = state_array("betafin", (1, mcap + 1), dtype)
+        Vf = state_array("Vfin", (1, n, mcap + 2), wdtype)
+        Df = state_array("alphafin", (1, mcap), wdtype)
+        Sf = state_array("betafin", (1, mcap + 1), wdtype)
         ifin = SInt(z3.Int(CTX.fresh("i_final")))
         CTX.assume(z3.And(ifin.term >= 2, ifin.term <= mcap.term + 1))
 
@@ -237,16 +239,21 @@ def wrapper_one(dt, capcase):
         goals.append(("the process runs on A with the cap min(max_iters, n) and the caller's tolerance",
                       z3.And(z3.BoolVal(rec.get("A") is A), iterm(rec["max_iters"]) == mcap.term, SScal.lift(rec["tol"]).re == tol.re)))
         V0 = rec["init"][0]
-        goals.append(("the workspace has the operator's dtype and room for min(max_iters, n) + 2 columns",
-                      z3.And(z3.BoolVal(np.dtype(V0.dtype) == np.dtype(dtype)), iterm(V0.shape[2]) == mcap.term + 2, iterm(V0.shape[1]) == n.term)))
+        goals.append(("the workspace has the promoted dtype of operator and start vector (a complex start vector of a real operator keeps its imaginary part) and room "
+                      "for min(max_iters, n) + 2 columns",
+                      z3.And(z3.BoolVal(np.dtype(V0.dtype) == np.dtype(wdtype)), iterm(V0.shape[2]) == mcap.term + 2, iterm(V0.shape[1]) == n.term)))
         Qd = Q.to_dense()
-        same("Q = columns 1..k of the basis buffer (k = steps run <= min(max_iters, n))", Qd, arr((n, SInt(k)), lambda r, j: kidx.one(Vf, z3.IntVal(0), r, j + 1), dtype), goals)
+        same("Q = columns 1..k of the basis buffer (k = steps run <= min(max_iters, n))", Qd, arr((n, SInt(k)), lambda r, j: kidx.one(Vf, z3.IntVal(0), r, j + 1), wdtype), goals)
         goals.append(("at most min(max_iters, n) columns", iterm(Qd.shape[1]) <= mcap.term))
-        same("T diagonal = alpha_1..alpha_k", T.beta, arr((SInt(k), 1), lambda j, z: kidx.one(Df, z3.IntVal(0), j), dtype), goals)
-        same("T sub-diagonal = beta_1..beta_{k-1}", T.alpha, arr((SInt(k - 1), 1), lambda j, z: kidx.one(Sf, z3.IntVal(0), j + 1), dtype), goals)
+        labels = sorted(a_.__name__ for a_ in getattr(Q, "annotations", set()))
+        if labels and prop == "C05":
+            goals.append(("reported labels on Q: only Stiefel, and every returned column is one of the columns 1..i-1 of the final state, which the loop invariant (orthonormality "
+                      "obligations) makes orthonormal", z3.And(z3.BoolVal(set(labels) <= {"Stiefel"}), iterm(Qd.shape[1]) <= ifin.term - 1)))
+        same("T diagonal = alpha_1..alpha_k", T.beta, arr((SInt(k), 1), lambda j, z: kidx.one(Df, z3.IntVal(0), j), wdtype), goals)
+        same("T sub-diagonal = beta_1..beta_{k-1}", T.alpha, arr((SInt(k - 1), 1), lambda j, z: kidx.one(Sf, z3.IntVal(0), j + 1), wdtype), goals)
         same("T super-diagonal = the same off-diagonal (symmetric T)", T.gamma, T.alpha, goals)
         return goals
-    return K.run_paths(f"C14/lanczos[{dt};{capcase}]", FN + "lanczos", thunk, dict(engine="LANCZOS", part="wrapper", dtype=dt))
+    return K.run_paths(f"{prop}/lanczos[{dt};{capcase}]", FN + "lanczos", thunk, dict(engine="LANCZOS", part="wrapper", dtype=dt))
 
 
 def eigs_one(dt):
@@ -307,6 +314,11 @@ def eigs_one(dt):
 
 def run(chk):
     chk.level = "proof"
+    from props import alg_forwarding
+    from cola.linalg.decompositions.decompositions import Lanczos as _Lanczos
+    alg_forwarding.forwarding(chk, "C14", _Lanczos)
+    from props import krylov_alias
+    krylov_alias.run(chk, "C14", "cola.linalg.decompositions.lanczos", ["lanczos_fact.body_fun"], "the Lanczos step")
     chk.trust("vcgen/idx.py + vcgen/kidx.py: NumPy primitives as index transformers; sums that no equality determines are atoms sumf(lo, hi, lambda); "
               "conjugation, real part and |.|^2 of complex entries are uninterpreted functions of the entry")
     chk.assume("Lanczos theorem (exact arithmetic, Hermitian A): the process specified here yields orthonormal q_1..q_k spanning the Krylov spaces, T = Q^H A Q real symmetric "
@@ -315,7 +327,7 @@ def run(chk):
     chk.assume("alpha is computed as <A q, q>, equal to q^H A q for Hermitian A; loss of orthogonality in floating point is out of reach")
     chk.assume("batched start vectors go through xnp.vmap, which the NumPy backend does not implement: outside the domain")
     tasks = [("loop", "real"), ("loop", "complex"), ("init", "real"), ("init", "complex"), ("init", "mixed"),
-             ("wrapper", "real", "cap<n"), ("wrapper", "real", "cap>=n"), ("wrapper", "complex", "cap<n"), ("wrapper", "complex", "cap>=n"),
+             ("wrapper", "real", "cap<n"), ("wrapper", "real", "cap>=n"), ("wrapper", "complex", "cap<n"), ("wrapper", "complex", "cap>=n"), ("wrapper", "vcomplex", "cap<n"),
              ("eigs", "real"), ("eigs", "complex"), ("orth", "real"), ("orth", "complex")]
     for nm in ("lanczos_fact", "init_lanczos", "lanczos", "lanczos_eigs", "do_gram", "do_double_gram"):
         chk.under_contract(FN + nm)
